@@ -46,6 +46,30 @@ CHECKS = {
    technique="runtime monitor: partition/reassembly relation over all pages of one render configuration (marker-delimited sink sections), dense size sweep, plus forward/backward walks through the real engine with the next/previous selectors in both drivers",
    text="For each configuration (rows incl. empty/leading/consecutive/trailing-empty, MSINK menus, browse labels, error prefix, separators) pages 0..k+1 are rendered at every size from nothing-fits to everything-fits: each page must be static text + section + menu + next/previous exactly as stated, the sections must reassemble to the content, indexes past the end must fail, an offered next must render. The engine layer walks the same content forwards past the end and backwards before the start.",
    note="Break-position policy is free. Known findings (joinSink arithmetic): empty rows at page starts/content end dropped; next offered for a page that fails the size check."),
+ "C03": dict(engine="sessions-model", category="exploration", design="§3 C03",
+   technique="runtime monitor: lock-step executable reference model (SpecVM) over recorded histories at the API boundary (recording resource, live State/Cache objects, decoded stored snapshot), this property's projection only (position, GetCode log, invalid-input page)",
+   text='Thousands of generated programs with duplicate selectors, wildcards anywhere, relative targets and interleaved instructions are served with histories over their selector alphabet plus junk; after every request the nodes fetched and the position must equal first-match-once routing, and an unmatched input must show the invalid-input catch page.',
+   note="Trusted base: the SpecVM model (harness/specvm) written from doc/texinfo and the property statements; don't-care where they are silent (state after a failed request, internal flags, paginated pages). Histories are PRNG-determined; held-on-observed only."),
+ "C04": dict(engine="sessions-model", category="exploration", design="§3 C04",
+   technique="runtime monitor: lock-step executable reference model (SpecVM) over recorded histories at the API boundary (recording resource, live State/Cache objects, decoded stored snapshot), this property's projection only (node path and page index, live and stored)",
+   text='Generated node graphs are navigated with histories of up to 40 inputs in the long-lived and persisted drivers; after every request State.ExecPath/SizeIdx (live and decoded from the store) must equal the documented move table applied to the moves executed, and failing moves must fail the request.',
+   note="Trusted base: the SpecVM model (harness/specvm) written from doc/texinfo and the property statements; don't-care where they are silent (state after a failed request, internal flags, paginated pages). Histories are PRNG-determined; held-on-observed only."),
+ "C05": dict(engine="sessions-model", category="exploration", design="§3 C05",
+   technique="runtime monitor: lock-step executable reference model (SpecVM) over recorded histories at the API boundary (recording resource, live State/Cache objects, decoded stored snapshot), this property's projection only (external-call log, cache scopes, page text, limit check)",
+   text='Programs that load the same symbols at several depths, reload, map and move are served with histories that descend, ascend and re-enter; the call log, the cache contents per scope (live and stored) and every non-paginated page must equal the model, and no over-limit value may be stored (lengths up to 70000).',
+   note="Trusted base: the SpecVM model (harness/specvm) written from doc/texinfo and the property statements; don't-care where they are silent (state after a failed request, internal flags, paginated pages). Histories are PRNG-determined; held-on-observed only."),
+ "C06": dict(engine="sessions-model", category="exploration", design="§3 C06",
+   technique='three runtime monitors: enumerated CATCH/CROAK operands against the reference model; model-free two-run tamper oracle (hostile vs filtered FlagSet/FlagReset lists, complete Flags bytes compared); TERMINATE-block monitor with the flag cleared in the stored state',
+   text="Every in-range flag index (all for counts <= 64, boundaries above; all in thorough) is exercised as CATCH and CROAK operand in both modes; generated applications are run twice with and without reserved indices in the functions' flag lists and must be indistinguishable down to the Flags bytes; while TERMINATE is set no output, callback or move may happen until the harness clears it.",
+   note="Trusted base: the SpecVM model (harness/specvm) written from doc/texinfo and the property statements; don't-care where they are silent (state after a failed request, internal flags, paginated pages). Histories are PRNG-determined; held-on-observed only."),
+ "C18": dict(engine="sessions-model", category="exploration", design="§3 C18",
+   technique="runtime monitor: lock-step executable reference model (SpecVM) over recorded histories at the API boundary (recording resource, live State/Cache objects, decoded stored snapshot), this property's projection only (language carried by every callback, State.Language, translated page text)",
+   text="Applications with language switchers (valid 2/3-letter codes, invalid strings, empty) and partial translations are served in four driver/backend combinations; every GetCode/FuncFor/function/GetTemplate/GetMenu callback must carry the model's language, the stored State.Language must equal it, and pages must show translation-or-default text.",
+   note="Trusted base: the SpecVM model (harness/specvm) written from doc/texinfo and the property statements; don't-care where they are silent (state after a failed request, internal flags, paginated pages). Histories are PRNG-determined; held-on-observed only. The DbResource lookup path (key suffixing) is exercised by C10."),
+ "C20": dict(engine="sessions-model", category="exploration", design="§3 C20",
+   technique="runtime monitor: lock-step executable reference model (SpecVM) over recorded histories at the API boundary (recording resource, live State/Cache objects, decoded stored snapshot), this property's projection only (continue flag, final output, restart position, cache emptiness, client flags, blocked requests)",
+   text='Applications with both kinds of end nodes, TERMINATE-setting functions and CROAK are driven past the end of the session over several end/restart cycles on mem, fs and the Postgres fake; graceful ends must deliver page+exit value and restart at the entry node with an empty cache and the client flags kept; terminated sessions must stay silent until the flag is cleared.',
+   note="Trusted base: the SpecVM model (harness/specvm) written from doc/texinfo and the property statements; don't-care where they are silent (state after a failed request, internal flags, paginated pages). Histories are PRNG-determined; held-on-observed only."),
 }
 NOT_YET = {}
 ALL = ["C%02d" % i for i in range(1, 21)]
